@@ -81,6 +81,9 @@ def main(argv=None) -> int:
     except ValueError:
         seed = 0
     if a.cmd == "check":
+        if os.path.realpath(a.repo) != os.path.realpath("/repo") and not os.environ.get("TPSA_EVIDENCE_DIR"):
+            import tempfile
+            os.environ["TPSA_EVIDENCE_DIR"] = os.path.join(tempfile.gettempdir(), "tpsa-evidence-scratch")
         code = run_check(a.prop.upper(), a.tier, a.repo, seed)
         sys.stdout.flush()
         sys.stderr.flush()
